@@ -105,7 +105,7 @@ func mutateText(r *rand.Rand, s string, vocab []string) string {
 
 func C17(e *core.Env) {
 	res := e.Res
-	res.Rule = "cases = (profile text, data text, entry point), each call under recover with a 20 s (quick) / 30 s (thorough) wall-clock bound (after two calls that block the run stops and reports them with the calls made before): the pools of C11 (every failure point), documents without nodes ([], {}, null, scalars, {\"@graph\": []}) which must conform, structured mutations of valid profiles and documents (delete / duplicate / swap lines, replace tokens and values by items of a vocabulary of keywords, prefixes, paths, scalars of other kinds, empty containers; truncation; byte flips) and raw byte strings, YAML anchors / aliases / merge keys incl. self-referencing ones (each in a child process, exit status 0 required), 8 goroutines validating at once in a child process (a fatal runtime error ends the process), through Validate, ValidateWithConfiguration, CompileProfile + ValidateCompiled, ValidateCompiledWithConfiguration, with and without an event channel; " +
+	res.Rule = "cases = (profile text, data text, entry point), each call under recover with a 20 s (quick) / 30 s (thorough) wall-clock bound (after two calls that block the run stops and reports them with the calls made before): the pools of C11 (every failure point), documents without nodes ([], {}, null, scalars, {\"@graph\": []}) which must conform, structured mutations of valid profiles and documents (delete / duplicate / swap lines, replace tokens and values by items of a vocabulary of keywords, prefixes, paths, scalars of other kinds, empty containers; truncation; byte flips) and raw byte strings, YAML anchors / aliases / merge keys incl. self-referencing ones (each in a child process, exit status 0 required), documents on which the JSON-LD library panics or fails with an uncoded error (each in a child process), a nil validation configuration and a panicking clock with / without the creation time, 8 goroutines validating at once in a child process (a fatal runtime error ends the process), through Validate, ValidateWithConfiguration, CompileProfile + ValidateCompiled, ValidateCompiledWithConfiguration, with and without an event channel; " +
 		"any panic or timeout is a violation; non-trivial = the call returns an error (the input was rejected, not merely accepted); distinct by input text"
 	compiled := compilePool(res)
 	rc := config.DefaultReportConfiguration()
@@ -202,6 +202,60 @@ func C17(e *core.Env) {
 		}
 		res.Case("alias|"+n, strings.HasPrefix(js["report"], "error"))
 		res.Count("stream=yaml-aliases")
+	}
+	// 2b'. documents on which the JSON-LD library itself panics (it does not return one of its coded errors), each in a child
+	// process: wherever that panic is raised, the caller must get an error value and the process must go on
+	ldPanics := map[string]string{
+		"protected-object":  `{"@context":{"@protected":{}},"@id":"http://example.org/d#a","@type":"http://example.org/ns#Thing"}`,
+		"value-type-empty":  `{"@id":"http://example.org/d#a","http://example.org/ns#name":{"@value":"a","@type":[]}}`,
+		"container-object":  `{"@context":{"t":{"@id":"http://example.org/ns#t","@container":{}}},"@id":"http://example.org/d#a","t":1}`,
+		"graph-null":        `{"@graph": null}`,
+		"language-property": `{"@id":"http://example.org/d#a","@language":"en"}`,
+	}
+	lnames := []string{}
+	for n := range ldPanics {
+		lnames = append(lnames, n)
+	}
+	sortStrings(lnames)
+	for _, n := range lnames {
+		pf, df := filepath.Join(e.Scratch, "ldp.yaml"), filepath.Join(e.Scratch, "ldp.jsonld")
+		os.WriteFile(pf, []byte(PoolProfileMin), 0o644)
+		os.WriteFile(df, []byte(ldPanics[n]), 0o644)
+		ctx, cancel := context.WithTimeout(context.Background(), 120*time.Second)
+		cmd := exec.CommandContext(ctx, self, "oneshot", pf, df)
+		var so, se bytes.Buffer
+		cmd.Stdout, cmd.Stderr = &so, &se
+		err := cmd.Run()
+		cancel()
+		var js map[string]string
+		if err != nil || json.Unmarshal(so.Bytes(), &js) != nil {
+			res.Violate("impl-violates-property", "a document on which the JSON-LD library panics ("+n+") ends the process instead of giving an error: "+core.Trunc(firstLineWith(se.String(), "fatal error", "panic:"), 160),
+				map[string]any{"profile": PoolProfileMin, "data": ldPanics[n], "entry_points": "ValidateWithConfiguration in a fresh process (verifh oneshot)", "exit": fmt.Sprint(err), "stderr_head": core.Trunc(se.String(), 800)})
+		}
+		res.Case("jsonld-library-panic|"+n, strings.HasPrefix(js["report"], "error"))
+		res.Count("stream=jsonld-library-panics")
+	}
+	// 2b''. the caller's own configuration objects: a nil validation configuration, a clock that panics, with and without the
+	// creation time in the report - a report or an error, never a panic
+	for ci, vc := range []config.ValidationConfiguration{nil, panickingClock{}} {
+		for _, include := range []bool{false, true} {
+			rcx := config.DefaultReportConfiguration()
+			rcx.IncludeReportCreationTime = include
+			name := fmt.Sprintf("%s, IncludeReportCreationTime=%v", []string{"nil ValidationConfiguration", "ReportCreationTime() panics"}[ci], include)
+			vc := vc
+			o := guarded(limit, func() (string, error) { return pkg.ValidateWithConfiguration(PoolProfileMin, PoolDataBad, false, nil, vc, rcx) })
+			check("ValidateWithConfiguration ("+name+")", PoolProfileMin, PoolDataBad, o)
+			if q := compiled["ok-min"]; q != nil {
+				o2 := guarded(limit, func() (string, error) { return pkg.ValidateCompiledWithConfiguration(q, PoolDataBad, false, nil, vc, rcx) })
+				check("ValidateCompiledWithConfiguration ("+name+")", PoolProfileMin, PoolDataBad, o2)
+				if !include && o2.kind != "value" {
+					res.Violate("impl-violates-property", "the creation time is not part of the report, yet the call fails because of the clock ("+name+"): "+core.Trunc(o2.text, 200),
+						map[string]any{"entry_point": "ValidateCompiledWithConfiguration", "profile": PoolProfileMin, "data": PoolDataBad, "configuration": name, "outcome": o2.kind, "text": core.Trunc(o2.text, 600)})
+				}
+			}
+			res.Case("caller-config|"+name, o.kind == "error")
+			res.Count("stream=caller-configuration")
+		}
 	}
 	// 2c. several goroutines validating at once, in a child process: a fatal runtime error (concurrent map writes ...) is not
 	// a panic, cannot be recovered by the library and ends the caller's process - no report, no error value
@@ -385,7 +439,7 @@ func hashString(s string) uint64 {
 
 func C09(e *core.Env) {
 	res := e.Res
-	res.Rule = "cases = histories of 1..6 (quick) / 1..25 (thorough) documents through ONE compiled profile, drawn from a pool (passing, failing, several results, no nodes, undecodable, rejected by JSON-LD, repeats, fail-then-pass), with compilations and text validations of OTHER profiles (re-declaring built-in prefixes, same names; in every fourth history 12 distinct other profiles at once) interleaved, under two report configurations (with / without creation time, same schema IRIs); documents with lexical source maps with / without a source-information node; every report / error is compared byte-wise (fixed clock) with the report a FRESH PROCESS makes from the profile text and that document, and with a text validation made AFTER the histories; " +
+	res.Rule = "cases = histories of 1..6 (quick) / 1..25 (thorough) documents through ONE compiled profile, drawn from a pool (passing, failing, several results, no nodes, undecodable, rejected by JSON-LD, starting with a byte order mark, surrounded by blanks, followed by trailing text, repeats, fail-then-pass), with compilations and text validations of OTHER profiles (re-declaring built-in prefixes, same names; in every fourth history 12 distinct other profiles at once) interleaved, under two report configurations (with / without creation time, same schema IRIs); documents with lexical source maps with / without a source-information node; every report / error is compared byte-wise (fixed clock) with the report a FRESH PROCESS makes from the profile text and that document, and with a text validation made AFTER the histories; a 10-validation profile compiled 6 (quick) / 40 (thorough) times WHILE 4 goroutines compile other profiles, each compilation compared with the text validation; " +
 		"non-trivial = the history contains two different documents and at least one failing call; distinct by (profile, history)"
 	rc := config.DefaultReportConfiguration()
 	coreProfile := `#%Validation Profile 1.0
@@ -412,7 +466,8 @@ validations:
 		manyOthers = append(manyOthers, fmt.Sprintf("#%%Validation Profile 1.0\nprofile: Other %d\nprefixes:\n  ex: http://example.org/ns#\nwarning:\n  - o%d\nvalidations:\n  o%d:\n    targetClass: ex.Thing\n    message: other %d\n    propertyConstraints:\n      ex.o%d:\n        minCount: 1\n", i, i, i, i, i))
 	}
 	profiles := []string{PoolProfileMin, PoolProfileLevels, coreProfile, evalErrProfile}
-	docs := []string{PoolDataGood, PoolDataBad, coreData, PoolDataEmpty, "[]", PoolDataGarbage, PoolDataTruncated, `{"@id": 5}`, `{"@id": "http://example.org/d#a", "@type": 1}`, PoolDataSpecial}
+	docs := []string{PoolDataGood, PoolDataBad, coreData, PoolDataEmpty, "[]", PoolDataGarbage, PoolDataTruncated, `{"@id": 5}`, `{"@id": "http://example.org/d#a", "@type": 1}`, PoolDataSpecial,
+		"\xef\xbb\xbf" + PoolDataBad, "\xef\xbb\xbf" + PoolDataGood, " \n\t" + PoolDataBad + "\n\n", PoolDataBad + " trailing text"}
 	// documents with lexical source maps: with the source-information node (root and additional locations), with another
 	// root location, and WITHOUT any source-information node (locations with an empty uri)
 	lg := RandomEdgeGraph(e.Rand, 4, []string{"a", "b", "name"}, 0.3)
@@ -593,6 +648,49 @@ validations:
 				}
 			}
 		}
+	}
+	// compiled WHILE other profiles are being compiled: the precompiled profile still equals its source
+	{
+		victim := c10Multi(10)
+		things := c10Datas()[2]
+		want := fresh(victim, things)
+		stop := make(chan struct{})
+		var wg sync.WaitGroup
+		for w := 0; w < 4; w++ {
+			wg.Add(1)
+			go func(w int) {
+				defer wg.Done()
+				defer func() { recover() }()
+				for i := w; ; i++ {
+					select {
+					case <-stop:
+						return
+					default:
+					}
+					pkg.CompileProfile(manyOthers[i%len(manyOthers)], false, nil)
+				}
+			}(w)
+		}
+		for round := 0; round < e.Pick(6, 40); round++ {
+			q, err := pkg.CompileProfile(victim, false, nil)
+			got := ""
+			if err != nil {
+				got = "error:" + err.Error()
+			} else {
+				o := guarded(30*time.Second, func() (string, error) { return pkg.ValidateCompiledWithConfiguration(q, things, false, nil, clockA, rc) })
+				got = o.kind + ":" + o.text
+			}
+			if got != want {
+				res.Violate("impl-violates-property", "a profile precompiled while other profiles are being compiled in the process reports differently from its source text",
+					map[string]any{"profile": victim, "document": things, "other_profiles_compiled_in_a_loop_by_4_goroutines": manyOthers[:3], "round": round,
+						"compiled_result": core.Trunc(got, 1500), "text_result": core.Trunc(want, 1500), "first_diff_line": firstDiff(want, got)})
+				break
+			}
+			res.Case(fmt.Sprintf("compiled-while-others-compile|%d", round), true)
+			res.Count("stream=compiled-while-others-compile")
+		}
+		close(stop)
+		wg.Wait()
 	}
 	res.Unmodelled = []string{"in-place mutation of result maps inside BuildReport, OPA's internal caches and any other Go heap state shared between calls: the model's stages are pure functions, so these can only be exhibited by the histories run here",
 		"the Genvar counter advances with every compilation; reports are compared byte-wise, so a leak of generated names into a report would show"}
